@@ -418,12 +418,21 @@ def correspondence(ctx: Ctx):
             label += k
         create = int(rng.random() < 0.75)
         exists = int(rng.random() < 0.5)
+        stale = int(exists and rng.random() < 0.6)      # an earlier run left files under (some of) the same names
 
-        def impl(names=names, vols=vols, create=create, exists=exists):
+        def impl(names=names, vols=vols, create=create, exists=exists, stale=stale):
             with tempfile.TemporaryDirectory() as d:
                 out_dir = pathlib.Path(d) / "out" / "sub"
                 if exists:
                     out_dir.mkdir(parents=True)
+                if stale:
+                    import h5py
+
+                    for k, (_dd, b) in enumerate(names):
+                        if k % 2 == 0:
+                            with h5py.File(out_dir / fname(b), "w") as f:
+                                f.create_dataset("reconstruction", data=np.full((2, 2, 2), -5.0, dtype=np.float32))
+                                f.create_dataset("stale_key", data=np.zeros(1))
                 output = [(v, {}, pathlib.Path(f"d{dd}") / fname(b)) for v, (dd, b) in zip(vols, names)]
                 write_output_to_h5(output, out_dir, create_dirs_if_needed=bool(create))
                 files = read_dir(out_dir)
@@ -432,10 +441,11 @@ def correspondence(ctx: Ctx):
                     return "err BadFile"
             return ("ok " + " | ".join(_fmt_vol(f, a) for f, _k, _d, a in files)).strip()
         collide = len({b for _, b in names}) < nv
-        yield {"line": line("write", [create, exists], [x for nm in names for x in nm], [x for dm in dims for x in dm],
+        yield {"line": line("write", [create, exists, stale], [x for nm in names for x in nm], [x for dm in dims for x in dm],
                             [int(x) for v in vols for x in v.reshape(-1).tolist()]),
                "impl": _catch_all(impl), "nontrivial": nv >= 2,
-               "bucket": "write/" + ("no-dir" if not create and not exists else "collision" if collide else "distinct")}
+               "bucket": "write/" + ("no-dir" if not create and not exists else "collision" if collide else "distinct")
+                         + ("/stale-files" if stale else "")}
 
     # ---- the real predict(): sampler -> DataLoader -> reconstruct_volumes [-> write_output_to_h5 -> read back]
     n_pred = ctx.budget(220, 1600)
